@@ -58,6 +58,8 @@ package usermanager
 //@ func (*localManager).ListAllUsers
 //@   repinv open: manager != nil && manager.db != nil && dbWF()
 //@   requires manager != nil && manager.db != nil && dbWF()
+//@   # an empty store is answered with an empty list, not with nil (the API encodes nil as JSON null)
+//@   ensures neverNil: err == nil ==> infos != nil
 //@   ensures readOnly: dbSame()
 //@   flag noframe
 
